@@ -191,10 +191,7 @@ class Parser:
                     if self.peek() != "}": self.expect(";")
                     stmts.append(("assign", e, None if op == "=" else op[:-1], r, ln))
                 elif self.accept(";"):
-                    if e[0] == "mcall" and e[2] == "for_each": stmts.append(self.desugar_for_each(e, ln))
-                    else: stmts.append(("expr", e, ln))
-                elif self.peek() == "}" and e[0] == "mcall" and e[2] == "for_each":
-                    stmts.append(self.desugar_for_each(e, ln))          # unit-valued: a statement
+                    stmts.append(("expr", e, ln))
                 elif self.peek() == "}":
                     tail = e
                 elif e[0] in ("if", "blockexpr"):
@@ -206,14 +203,15 @@ class Parser:
     # ---- expressions
     def expr(self, nostruct=False):
         if nostruct: return self.with_ns(True, lambda: self.expr())
-        if self.kind() == "p" and self.peek() == "..":          # `..hi`: from the start
+        if self.kind() == "p" and self.peek() == "..":               # `..hi` (slice ranges)
             self.next()
-            if self.peek() in ("]", ")", ",", ";"): self.fail("unbounded range `..`")
-            return ("range", ("num", 0, None), self.binexpr(0), False)
+            return ("range", None, self.binexpr(0), False)
         e = self.binexpr(0)
-        if self.peek() in ("..", "..="):
+        if self.peek() in ("..", "..=") and self.kind() == "p":
             incl = self.next() == "..="
-            if self.peek() in ("]", ")", ",", ";"): self.fail("range without an upper bound")
+            if self.kind() == "p" and self.peek() in ("]", ")"):
+                if incl: self.fail("`..=` without an upper bound")
+                return ("range", e, None, False)               # `lo..`
             hi = self.binexpr(0)
             return ("range", e, hi, incl)
         return e
@@ -335,87 +333,28 @@ class Parser:
         may be a single assignment `*r = e`"""
         self.expect("|"); params = []
         def pat():
-            if self.accept("&"):
-                if self.peek() == "mut": self.fail("`&mut` closure pattern")
-                return ("refpat", self.ident())
-            return ("idpat", self.ident())
-        while not self.accept("|"):
-            if self.peek() == "(" and self.kind() == "p":
-                self.next(); els = []
+            # parameter pattern: `x`, `&x`, `(p, q)`  (phase 4: iterator closures `|c|`, `|(r, &c)|`)
+            if self.accept("&"): return ("refpat", self.ident())
+            if self.accept("("):
+                ps = []
                 while not self.accept(")"):
-                    if self.peek() == "(": self.fail("nested tuple pattern in a closure parameter")
-                    els.append(pat())
+                    ps.append(pat())
                     if not self.accept(","): self.expect(")"); break
-                params.append((("tuplepat", els), None))
-            elif self.peek() == "&" and self.kind() == "p":
-                params.append((pat(), None))
-            else:
-                pn = self.ident()
-                if self.accept(":"): params.append((pn, self.ty()))
-                else: params.append((("idpat", pn), None))
+                return ("tuplepat", ps)
+            return self.ident()
+        while not self.accept("|"):
+            pn = pat()
+            params.append((pn, self.ty() if self.accept(":") else None))
             if not self.accept(","): self.expect("|"); break
         if self.peek() == "->": self.fail("closure with a declared return type")
         if self.peek() == "{": body = self.block()
         else:
-            ln = self.line()
-            e = self.expr()
-            if self.peek() in ASSIGN_OPS and self.kind() == "p":
+            ln = self.line(); e = self.expr()
+            if self.peek() in ASSIGN_OPS and self.kind() == "p":      # `|c| *c = f(*c)`: an assignment as the closure body
                 op = self.next(); r = self.expr()
                 body = ([("assign", e, None if op == "=" else op[:-1], r, ln)], None)
             else: body = ([], e)
         return ("closure", params, body)
-
-    def desugar_for_each(self, e, ln):
-        """`X.iter_mut().for_each(|c| body)`, `X.iter_mut().zip(Y.iter()).for_each(|(r, c)| body)`, `Y.iter().zip(X.iter_mut()).for_each(|(&c, r)| body)`
-        (X, Y slice variables) as the index loop `for i in 0..len { body[*r := X[i], c / *c := Y[i]] }`, len = X.len() resp.
-        min(X.len(), Y.len()) (`zip` stops at the shorter side).  A pattern variable `r` is a reference (only `*r` may occur), `&c` a value."""
-        recv, args = strip_paren(e[1]), e[3]
-        if len(args) != 1 or strip_paren(args[0])[0] != "closure": self.fail("for_each without a closure literal")
-        clo = strip_paren(args[0])
-        if len(clo[1]) != 1 or clo[1][0][1] is not None: self.fail("for_each closure: one untyped parameter / pattern expected")
-        pat = clo[1][0][0]
-        def side(x):
-            x = strip_paren(x)
-            if x[0] == "mcall" and x[2] in ("iter", "iter_mut") and not x[3] and strip_paren(x[1])[0] == "path" and len(strip_paren(x[1])[1]) == 1:
-                return (strip_paren(x[1])[1][0], x[2] == "iter_mut")
-            self.fail("for_each on something that is not `x.iter()` / `x.iter_mut()` / a `zip` of two such")
-        if recv[0] == "mcall" and recv[2] == "zip" and len(recv[3]) == 1:
-            sides = [side(recv[1]), side(recv[3][0])]
-            if pat[0] != "tuplepat" or len(pat[1]) != 2: self.fail("for_each over a zip: the closure parameter must be a pair pattern")
-            pats = pat[1]
-            if sides[0][0] == sides[1][0]: self.fail("zip of a slice with itself")
-            hi = ("minlen", ("path", [sides[0][0]]), ("path", [sides[1][0]]))
-        else:
-            sides = [side(recv)]
-            if pat[0] not in ("idpat", "refpat"): self.fail("for_each closure parameter")
-            pats = [pat]
-            hi = ("mcall", ("path", [sides[0][0]]), "len", [])
-        self.nfe = getattr(self, "nfe", 0) + 1
-        ivar = f"it{self.nfe}_"
-        dmap = {}; vmap = {}
-        for (name, ismut), (pk, pn) in zip(sides, pats):
-            elem = ("index", ("path", [name]), ("path", [ivar]))
-            if pk == "idpat": dmap[pn] = elem
-            else:
-                if ismut: self.fail("`&x` pattern on an `iter_mut()` element")
-                vmap[pn] = elem
-        if set(dmap) & set(vmap) or len(dmap) + len(vmap) != len(pats): self.fail("for_each pattern binds a name twice")
-        def sub(x):
-            if isinstance(x, list): return [sub(y) for y in x]
-            if not isinstance(x, tuple) or not x: return x
-            if x[0] == "deref":
-                inner = strip_paren(x[1])
-                if inner[0] == "path" and len(inner[1]) == 1 and inner[1][0] in dmap: return dmap[inner[1][0]]
-            if x[0] == "path":
-                if len(x[1]) == 1 and x[1][0] in vmap: return vmap[x[1][0]]
-                if len(x[1]) == 1 and x[1][0] in dmap: self.fail(f"for_each: the element reference `{x[1][0]}` is used other than as `*{x[1][0]}`")
-                return x
-            if x[0] == "closure": self.fail("closure inside a for_each closure")
-            if x[0] == "let" and (x[1] in dmap or x[1] in vmap if isinstance(x[1], str) else set(x[1][1]) & (set(dmap) | set(vmap))): self.fail("for_each: `let` shadows a pattern variable")
-            return tuple(sub(y) if isinstance(y, (tuple, list)) else y for y in x)
-        body = (sub(clo[2][0]), None if clo[2][1] is None else sub(clo[2][1]))
-        if body[1] is not None: body = (body[0] + [("expr", body[1], ln)], None)     # a unit-valued expression body
-        return ("for", ivar, ("range", ("num", 0, None), hi, False), body, ln)
 
     def struct_lit(self, name):
         """`Name { f: e, g }` (field shorthand allowed; no `..base`)"""
@@ -533,7 +472,19 @@ def find_impl(src, impl, rel):
 def parse_fn(repo, rel, name, impl=None):
     src = strip_comments(open(os.path.join(repo, rel)).read())
     lo, hi, selfty, aliases = 0, None, None, {}
-    if impl is not None: lo, hi, selfty, aliases = find_impl(src, impl, rel)
+    if impl is not None:
+        pat = r"\bimpl\s+" + r"\s+".join(re.escape(w) for w in impl.split()) + r"\s*\{"
+        blocks = list(re.finditer(pat, src))
+        if len(blocks) > 1:
+            # phase 4: a type with several `impl T { .. }` blocks (RNSTool): the function must occur in exactly one of them
+            hits = []
+            for mb in blocks:
+                j0 = mb.end() - 1; e0 = brace_block(src, j0, f"impl {impl}")
+                if re.search(r"\bfn\s+%s\s*\(" % re.escape(name), src[j0:e0]): hits.append((j0, e0))
+            if len(hits) != 1: raise Unsupported(f"fn {name} found in {len(hits)} of the {len(blocks)} `impl {impl}` blocks of {rel}")
+            lo, hi = hits[0]; selfty = impl.split()[-1]
+            aliases = {m.group(1): m.group(2) for m in re.finditer(r"\btype\s+(\w+)\s*=\s*(\w+)\s*;", src[lo:hi])}
+        else: lo, hi, selfty, aliases = find_impl(src, impl, rel)
     off, line = find_fn(src, name, rel if impl is None else f"{rel} (impl {impl})", lo, hi)
     j = src.index("{", off); end = brace_block(src, j, f"fn {name} in {rel}")
     toks = tokenize(src[off:end], line)
@@ -701,6 +652,90 @@ def assigned(x, acc=None, declared=None):
     return acc, declared
 
 
+# ---- phase 4: iterator chains `X.iter_mut().for_each(|c| ..)`, `X.iter_mut().zip(Y.iter()).for_each(|(r, c)| ..)` as index loops
+
+def subst_iter(x, ref_names, val_names, ivar, fail):
+    """closure body -> loop body: `*p` (p bound to an element reference) and `p` (bound by a `&p` pattern) become `X[ivar]`"""
+    if isinstance(x, list): return [subst_iter(y, ref_names, val_names, ivar, fail) for y in x]
+    if not isinstance(x, tuple) or not x: return x
+    if x[0] == "deref":
+        b = strip_paren(x[1])
+        if b[0] == "path" and len(b[1]) == 1 and b[1][0] in ref_names:
+            return ("index", ("path", [ref_names[b[1][0]]]), ("path", [ivar]))
+    if x[0] == "path":
+        if len(x[1]) == 1 and x[1][0] in val_names: return ("index", ("path", [val_names[x[1][0]]]), ("path", [ivar]))
+        if len(x[1]) == 1 and x[1][0] in ref_names: fail(f"iterator closure uses the element reference `{x[1][0]}` other than as `*{x[1][0]}`")
+        return x
+    if x[0] == "closure": fail("closure inside an iterator closure")
+    if x[0] == "let" and ((isinstance(x[1], str) and (x[1] in ref_names or x[1] in val_names))): fail("iterator closure shadows its parameter")
+    return tuple(subst_iter(y, ref_names, val_names, ivar, fail) if isinstance(y, (tuple, list)) else y for y in x)
+
+
+def desugar_iters(x, fail, ctr):
+    """rewrite every statement `<iter chain>.for_each(<closure>)` of a block tree into `for it in 0..len { body }`.
+    Accepted chains: `X.iter_mut()`, `X.iter_mut().zip(Y.iter())`, `X.iter().zip(Y.iter_mut())` with X, Y plain slice variables.
+    `zip` stops at the shorter side: trip count = min(X.len(), Y.len()) (AST node `minlen`)."""
+    def side(e):
+        e = strip_paren(e)
+        if e[0] == "mcall" and e[2] in ("iter", "iter_mut") and not e[3]:
+            r = strip_paren(e[1])
+            if r[0] == "path" and len(r[1]) == 1: return (r[1][0], e[2] == "iter_mut")
+        fail("iterator chain: only `x.iter()` / `x.iter_mut()` of a slice variable (optionally one `.zip(..)`) is accepted")
+    def bind(pat, sd, refs, vals):
+        name, ismut = sd
+        if isinstance(pat, str): refs[pat] = name
+        elif pat[0] == "refpat":
+            if ismut: fail("`&x` pattern on an `iter_mut()` element")
+            vals[pat[1]] = name
+        else: fail("iterator closure parameter pattern")
+    def stmt(s):
+        if not isinstance(s, tuple) or not s: return s
+        if s[0] == "expr":
+            e = strip_paren(s[1])
+            if e[0] == "mcall" and e[2] == "for_each":
+                if len(e[3]) != 1 or strip_paren(e[3][0])[0] != "closure": fail("for_each without a closure literal")
+                clo = strip_paren(e[3][0]); recv = strip_paren(e[1])
+                if len(clo[1]) != 1 or clo[1][0][1] is not None: fail("for_each closure must have one untyped parameter")
+                pat = clo[1][0][0]; refs = {}; vals = {}
+                if recv[0] == "mcall" and recv[2] == "zip" and len(recv[3]) == 1:
+                    a, b = side(recv[1]), side(recv[3][0])
+                    if not (isinstance(pat, tuple) and pat[0] == "tuplepat" and len(pat[1]) == 2): fail("zip closure parameter must be a pair pattern")
+                    bind(pat[1][0], a, refs, vals); bind(pat[1][1], b, refs, vals)
+                    if a[0] == b[0]: fail("zip of a slice with itself")
+                    count = ("minlen", ("path", [a[0]]), ("path", [b[0]]))
+                else:
+                    a = side(recv)
+                    if not a[1]: fail("for_each over a shared iterator (no effect)")
+                    bind(pat, a, refs, vals)
+                    count = ("mcall", ("path", [a[0]]), "len", [])
+                ctr[0] += 1; ivar = f"it{ctr[0]}_"
+                body = subst_iter([clo[2][0], clo[2][1]], refs, vals, ivar, fail)
+                blk = (body[0], body[1])
+                if blk[1] is not None: blk = (blk[0] + [("expr", blk[1], s[2] if len(s) > 2 else None)], None)
+                return ("for", ivar, ("range", ("num", 0, None), count, False), block(blk), s[2] if len(s) > 2 else None)
+            return ("expr", expr(s[1])) + tuple(s[2:])
+        if s[0] == "let": return ("let", s[1], s[2], s[3], None if s[4] is None else expr(s[4]), s[5])
+        if s[0] == "assign": return ("assign", s[1], s[2], expr(s[3]), s[4])
+        if s[0] == "return": return ("return", None if s[1] is None else expr(s[1]), s[2])
+        if s[0] == "loop": return ("loop", block(s[1]), s[2])
+        if s[0] == "while": return ("while", s[1], block(s[2]), s[3])
+        if s[0] == "for": return ("for", s[1], s[2], block(s[3]), s[4])
+        return s
+    def expr(e):
+        if not isinstance(e, tuple) or not e: return e
+        if e[0] == "if": return ("if", e[1], block(e[2]), None if e[3] is None else block(e[3]))
+        if e[0] == "blockexpr": return ("blockexpr", block(e[1]))
+        if e[0] == "paren": return ("paren", expr(e[1]))
+        return e
+    def block(blk):
+        stmts, tail = blk
+        if tail is not None:
+            t0 = strip_paren(tail)
+            if t0[0] == "mcall" and t0[2] == "for_each": stmts = stmts + [("expr", tail, None)]; tail = None
+        return ([stmt(t) for t in stmts], None if tail is None else expr(tail))
+    return block(x)
+
+
 class FnLower:
     def __init__(self, tr, fn, opts):
         self.tr, self.fn, self.opts = tr, fn, opts
@@ -861,15 +896,61 @@ class FnLower:
                 try: c = self.canon(x, env)
                 except Exception: c = None
                 if c is not None and self.abs.get(c) is not None and self.abs[c] not in acc: acc.append(self.abs[c])
+            if x[0] in ("index", "mcall", "call"):
+                try:
+                    ai = self.abs_indexed(x, env, mark=False)
+                    if ai is not None and ai[0] not in acc: acc.append(ai[0])
+                    ex = self.extern_of(x, env)
+                    if ex is not None and (ex[0]["binder"], self.EXTERN_TY) not in acc: acc.append((ex[0]["binder"], self.EXTERN_TY))
+                except Unsupported: pass
             for y in x:
                 if isinstance(y, (tuple, list)): self.abs_in(y, env, acc)
         return acc
 
-    ABS_TY = {"Nat": "usize", "Int": "i64"}
+    ABS_TY = {"Nat": "usize", "Int": "i64", "Modulus": "mod", "MulOperand": ("struct", "MultiplyU64ModOperand"), "List Nat": "list"}
     # abstracted getters that return an object: Lean type -> (variable kind, value type).  Slices of structs (`&Vec<Modulus>`,
     # `&Vec<MultiplyU64ModOperand>`) are read-only lists: only `.len()` and (checked) indexing are accepted on them
     ABS_OBJ = {"List Nat": ("list", "list"), "Modulus": ("mod", "mod"), "List Modulus": ("modlist", "modlist"),
                "List MulOperand": ("moplist", "moplist")}
+    ABS_IDX = {"List Modulus": ("idxMod", "mod"), "List MulOperand": ("idxOp", ("struct", "MultiplyU64ModOperand")), "List Nat": ("idx", "u64")}
+
+    def abs_indexed(self, e, env, mark=True):
+        """phase 4: an INDEXED abstraction - `<chain>[i]` / `<chain>.m(i)` where the table lists `<chain>[#]` / `<chain>.m(#)` as a list
+        input: returns ((binder, type), index expression)"""
+        if not getattr(self, "abs", None): return None
+        e = strip_paren(e)
+        if e[0] == "index" and strip_paren(e[2])[0] != "range":
+            c = self.canon(e[1], env); key = None if c is None else f"{c}[#]"; ix = e[2]
+        elif e[0] == "mcall" and len(e[3]) == 1:
+            c = self.canon(e[1], env); key = None if c is None else f"{c}.{e[2]}(#)"; ix = e[3][0]
+        else: return None
+        if key is None or self.abs.get(key) is None: return None
+        if mark: self.abs_used.add(key)
+        return (self.abs[key], ix)
+
+    def extern_of(self, e, env):
+        """phase 4: a call the table declares to be an abstract FUNCTION input `F : Nat -> List Nat -> R (List Nat)` (table index, data):
+        `path(&mut data, &tables[i])` or `tables[i].method(&mut data)`; returns (entry, index expr, data argument, receiver first?)"""
+        exts = self.opts.get("extern", [])
+        if not exts: return None
+        e = strip_paren(e)
+        def tab_index(x, ent):
+            x = strip_paren(x)
+            if x[0] == "ref" and not x[1]: x = strip_paren(x[2])
+            if x[0] == "index" and self.canon(x[1], env) == ent["tables"]: return x[2]
+            return None
+        if e[0] == "call" and len(e[2]) == 2:
+            for ent in exts:
+                if ent.get("call") == "::".join(e[1]):
+                    ix = tab_index(e[2][1], ent)
+                    if ix is None: self.fail(f"extern `{ent['call']}`: second argument is not `&{ent['tables']}[i]`")
+                    return (ent, ix, e[2][0], False)
+        if e[0] == "mcall" and len(e[3]) == 1:
+            for ent in exts:
+                if ent.get("mcall") == e[2]:
+                    ix = tab_index(e[1], ent)
+                    if ix is not None: return (ent, ix, e[3][0], True)
+        return None
 
     def ex_m(self, e, env, ops):
         k = e[0]
@@ -885,9 +966,16 @@ class FnLower:
             if ty in self.tr.enums_lean: return ("v", Val(name, ("enum", self.tr.enums_lean[ty]), [name]))
             if ty in self.ABS_OBJ: return ("v", Val(name, self.ABS_OBJ[ty][1], [name]))
             self.fail(f"abstraction `{c}` of type {ty}")
+        ai = self.abs_indexed(e, env)
+        if ai is not None:
+            (name, ty), ixe = ai
+            if ty not in self.ABS_IDX: self.fail(f"indexed abstraction of type {ty}")
+            i = self.word(self.ex(ixe, env, ops), "index")
+            self.monadic_used = True
+            return ("m", f"{self.ABS_IDX[ty][0]} {name} {i.atom}", self.ABS_IDX[ty][1])
         if k == "minlen":
             a, b = self.lookup(env, e[1][1][0]), self.lookup(env, e[2][1][0])
-            if a.kind != "list" or b.kind != "list": self.fail("zip of something that is not a slice variable")
+            if a.kind != "list" or b.kind != "list": self.fail("zip of something that is not a slice")
             return ("v", Val(f"(min {a.lean}.length {b.lean}.length)", "usize", [a.lean, b.lean]))
         if k == "float": self.fail(f"float literal {e[1]} outside an abstracted expression")
         if k == "structlit": return self.struct_lit(e, env, ops)
@@ -925,8 +1013,7 @@ class FnLower:
                 return self.ex_m(b, env, ops)             # `*r` of a shared reference parameter: the value
             self.fail("dereference of something that is not a reference parameter")
         if k == "index" and strip_paren(e[2])[0] == "range":
-            t = self.slice_value(e, env, ops)
-            return ("v", Val(t, "list", [t]))
+            return ("v", self.list_arg(e, env, ops, "sub-slice"))
         if k == "index":
             b = strip_paren(e[1]); ix = strip_paren(e[2])
             if b[0] == "mcall" and b[2] == "const_ratio" and not b[3]:
@@ -987,48 +1074,6 @@ class FnLower:
             t = self.tmp(); ops.append(("letcode", t, code)); return ("v", Val(t, ty, [t]))
         if k == "ref" and not e[1]: return self.ex_m(e[2], env, ops)        # `&x` of a value: shared borrow = the value
         self.fail(f"expression form `{k}`")
-
-    def slice_bounds(self, e, env, ops):
-        """`x[lo..hi]` of a list variable: (variable, lo, hi) with the bounds evaluated in order (checked arithmetic)"""
-        b = strip_paren(e[1]); r = strip_paren(e[2])
-        if not (b[0] == "path" and len(b[1]) == 1 and self.lookup(env, b[1][0]).kind == "list"): self.fail("sub-slice of something that is not a slice variable")
-        if r[3]: self.fail("inclusive range as a slice index")
-        lo, hi = self.seq([lambda: self.ex(r[1], env, ops), lambda: self.ex(r[2], env, ops)], ops)
-        if lo.ty not in WORD or hi.ty not in WORD: self.fail(f"slice bounds of type {lo.ty}, {hi.ty}")
-        return env[b[1][0]], lo, hi
-
-    def slice_value(self, e, env, ops):
-        """`&x[lo..hi]` as a value: `sliceR x lo hi` (`.error .oob` unless lo <= hi <= len, as in Rust); returns the temporary's name"""
-        v, lo, hi = self.slice_bounds(e, env, ops)
-        t = self.tmp(); ops.append(("bind", t, f"sliceR {v.lean} {lo.atom} {hi.atom}")); self.monadic_used = True
-        return t
-
-    def list_arg(self, a, env, ops, what):
-        """a `&[u64]` argument: a slice variable or a checked sub-slice of one"""
-        a2 = strip_paren(a)
-        if a2[0] == "ref": a2 = strip_paren(a2[2])
-        if a2[0] == "index" and strip_paren(a2[2])[0] == "range":
-            t = self.slice_value(a2, env, ops); return Val(t, "list", [t])
-        if a2[0] == "path" and len(a2[1]) == 1 and self.lookup(env, a2[1][0]).kind == "list": return Val(env[a2[1][0]].lean, "list", [env[a2[1][0]].lean])
-        self.fail(f"{what}: slice argument")
-
-    def mlist_arg(self, a, env, ops, what):
-        """a `&mut [u64]` argument: a mutable slice variable (re-bound to the callee's result) or a sub-slice `&mut x[lo..hi]` of one
-        (checked like a read; the result is spliced back: a `&mut [u64]` cannot change its length).  Returns (input value, write-back)"""
-        a2 = strip_paren(a)
-        if a2[0] == "ref":
-            if not a2[1]: self.fail(f"{what}: `&` where `&mut` is needed")
-            a2 = strip_paren(a2[2])
-        if a2[0] == "index" and strip_paren(a2[2])[0] == "range":
-            v, lo, hi = self.slice_bounds(a2, env, ops)
-            if not v.mut: self.fail(f"{what}: `&mut` sub-slice of an immutable slice")
-            t = self.tmp(); ops.append(("bind", t, f"sliceR {v.lean} {lo.atom} {hi.atom}")); self.monadic_used = True
-            o = self.tmp()
-            return Val(t, "list", [t]), (o, lambda: ops.append(("let", v.lean, f"spliceR {v.lean} {lo.atom} {hi.atom} {o}")))
-        if a2[0] == "path" and len(a2[1]) == 1 and self.lookup(env, a2[1][0]).kind == "list" and env[a2[1][0]].mut:
-            v = env[a2[1][0]]
-            return Val(v.lean, "list", [v.lean]), (v.lean, lambda: None)
-        self.fail(f"{what}: `&mut [u64]` argument must be a mutable slice variable or a sub-slice of one")
 
     def struct_lit(self, e, env, ops):
         _, name, fields = e
@@ -1091,6 +1136,20 @@ class FnLower:
 
     def mcall(self, e, env, ops):
         recv, m, args = strip_paren(e[1]), e[2], e[3]
+        exn = self.extern_of(e, env)
+        if exn is not None: return self.extern_call(exn, env, ops)
+        r0 = strip_paren(recv[2]) if recv[0] == "ref" and not recv[1] else recv
+        if m in ("value", "bit_count", "reduce") and not (r0[0] == "path" and len(r0[1]) == 1 and r0[1][0] in env and env[r0[1][0]].kind != "handle") \
+                and (self.abstracted(r0, env) is not None or self.abs_indexed(r0, env, mark=False) is not None):
+            rv = self.ex(r0, env, ops)                      # a modulus obtained from an abstracted accessor (`self.t`, `base_q[i]`)
+            if rv.ty != "mod": self.fail(f"method {m}() on a value of type {rv.ty}")
+            if m == "value" and not args: return ("v", Val(f"{rv.atom}.value", "u64", rv.deps))
+            if m == "bit_count" and not args: return ("v", Val(f"{rv.atom}.bits", "usize", rv.deps))
+            recv = ("val", rv)
+        if m == "reduce" and len(args) == 1 and (recv[0] == "val" or (recv[0] == "path" and len(recv[1]) == 1 and recv[1][0] in env and env[recv[1][0]].kind == "mod")):
+            sig = self.tr.msigs.get(("Modulus", "reduce"))
+            if sig is None: self.fail("Modulus::reduce is not a translated function")
+            return self.call_sig(sig, "Modulus::reduce", [recv] + list(args), env, ops)
         if recv[0] == "path" and len(recv[1]) == 1 and recv[1][0] in env and env[recv[1][0]].kind == "mod":
             lean = env[recv[1][0]].lean
             if m == "value" and not args: return ("v", Val(f"{lean}.value", "u64", [lean]))
@@ -1270,7 +1329,7 @@ class FnLower:
         self.fail(f"i64 operator `{op}`")
 
     # value of an `if` expression whose branches neither escape nor assign outer variables
-    def if_value(self, e, env, hoist=None):
+    def if_value(self, e, env, ops=None):
         if e[3] is None: self.fail("`if` without `else` used as a value")
         if has_escape(e[2][0]) or has_escape(e[3][0]) or has_escape(e[2][1]) or has_escape(e[3][1]):
             self.fail("`return`/`break` inside an `if` used as a value")
@@ -1281,8 +1340,8 @@ class FnLower:
         ops0 = []
         c = self.ex(e[1], env, ops0)
         if ops0:
-            if hoist is None: self.fail("condition of a value-`if` needs statements")
-            hoist.extend(ops0)          # the condition is evaluated first: its statements go in front of the `if`
+            if ops is None: self.fail("condition of a value-`if` needs statements")   # (kept simple; conditions here are comparisons)
+            ops.extend(ops0)            # the condition is evaluated first: its statements go in front of the `if`
         if c.ty != "bool": self.fail("`if` condition is not bool")
         tys = []
         def kv(env2, val, ops):
@@ -1347,12 +1406,73 @@ class FnLower:
             ops.append(("let", f"({la}, {lb})", f"({lb}, {la})"))
             return ("v", Val("()", "unit"))
         if len(path) == 1 and path[0] in env and env[path[0]].kind == "closure": return self.closure_call(env[path[0]], args, env, ops)
+        exn = self.extern_of(e, env)
+        if exn is not None: return self.extern_call(exn, env, ops)
         sig = None
         if len(path) >= 2 and (path[-2] == "Self" or path[-2] in self.tr.structs):
             sig = self.tr.msigs.get((self.fn["selfty"] if path[-2] == "Self" else path[-2], fname))
         if sig is None and not (len(path) >= 2 and path[-2][0].isupper()): sig = self.tr.sigs.get(fname)
         if sig is None: self.fail(f"call to `{'::'.join(path)}` which is not a translated function")
         return self.call_sig(sig, fname, args, env, ops)
+
+    EXTERN_TY = "Nat → List Nat → R (List Nat)"
+
+    def slice_bounds(self, v, rng, env, ops):
+        """(lo atom, hi atom) of `v[lo..hi]`, evaluated in order (open ends: 0 / the length)"""
+        if rng[3]: self.fail("inclusive slice range")
+        lo = self.word(self.ex(rng[1], env, ops), "slice bound").atom if rng[1] is not None else "0"
+        hi = self.word(self.ex(rng[2], env, ops), "slice bound").atom if rng[2] is not None else f"{v.lean}.length"
+        return lo, hi
+
+    def list_arg(self, a, env, ops, what):
+        """a `&[u64]` argument: a slice variable / Vec local, or a sub-slice `&x[lo..hi]` (bounds-checked where it is evaluated)"""
+        a2 = strip_paren(a)
+        if a2[0] == "ref": a2 = strip_paren(a2[2])
+        if a2[0] == "path" and len(a2[1]) == 1 and self.lookup(env, a2[1][0]).kind == "list":
+            v = env[a2[1][0]]; return Val(v.lean, "list", [v.lean])
+        if a2[0] == "index" and strip_paren(a2[2])[0] == "range":
+            b = strip_paren(a2[1])
+            if b[0] == "path" and len(b[1]) == 1 and self.lookup(env, b[1][0]).kind == "list":
+                v = env[b[1][0]]
+                lo, hi = self.slice_bounds(v, strip_paren(a2[2]), env, ops)
+                t = self.tmp(); ops.append(("bind", t, f"slice {v.lean} {lo} {hi}")); self.monadic_used = True
+                return Val(t, "list", [t])
+        ab = self.abstracted(a2, env)
+        if ab is not None and ab[1] is not None and ab[1][1] == "List Nat": return Val(ab[1][0], "list", [ab[1][0]])
+        self.fail(f"{what}: slice argument")
+
+    def mlist_arg(self, a, env, ops, what):
+        """a `&mut [u64]` argument: (value passed, function that writes the callee's result `new` back)"""
+        a2 = strip_paren(a)
+        if a2[0] == "ref":
+            if not a2[1]: self.fail(f"{what}: `&` where `&mut` is needed")
+            a2 = strip_paren(a2[2])
+        if a2[0] == "path" and len(a2[1]) == 1 and self.lookup(env, a2[1][0]).kind == "list" and env[a2[1][0]].mut:
+            v = env[a2[1][0]]
+            return Val(v.lean, "list", [v.lean]), v.lean, (lambda: None)
+        if a2[0] == "index" and strip_paren(a2[2])[0] == "range":
+            b = strip_paren(a2[1])
+            if b[0] == "path" and len(b[1]) == 1 and self.lookup(env, b[1][0]).kind == "list" and env[b[1][0]].mut:
+                v = env[b[1][0]]
+                lo, hi = self.slice_bounds(v, strip_paren(a2[2]), env, ops)
+                t = self.tmp(); ops.append(("bind", t, f"slice {v.lean} {lo} {hi}")); self.monadic_used = True
+                t2 = self.tmp()
+                def wb(): ops.append(("let", v.lean, f"splice {v.lean} {lo} {t2}"))
+                return Val(t, "list", [t]), t2, wb
+        self.fail(f"{what}: unsupported `&mut [u64]` argument")
+
+    def extern_call(self, exn, env, ops):
+        ent, ixe, data, recv_first = exn
+        cell = {}
+        def th_ix(): return self.word(self.ex(ixe, env, ops), "table index")
+        def th_data():
+            v, name, wb = self.mlist_arg(data, env, ops, f"extern {ent['binder']}"); cell["x"] = (name, wb); return v
+        vals = self.seq([th_ix, th_data] if recv_first else [th_data, th_ix], ops)
+        ix, dv = (vals[0], vals[1]) if recv_first else (vals[1], vals[0])
+        self.extern_used.add(ent["binder"])
+        ops.append(("bind", cell["x"][0], f"{ent['binder']} {ix.atom} {dv.atom}")); self.monadic_used = True
+        cell["x"][1]()
+        return ("v", Val("()", "unit"))
 
     def closure_call(self, cv, args, env, ops):
         """call of a local closure = call of its auxiliary definition (captures are immutable: their values at the definition)"""
@@ -1428,18 +1548,16 @@ class FnLower:
                     thunks.append(lambda n=v.lean[j]: Val(n, "u64", [n]))
             elif kind == "list":
                 thunks.append(lambda a=a: self.list_arg(a, env, ops, f"call to {fname}"))
-            elif kind == "mlist":
-                cell = {}
-                def th(a=a, cell=cell):
-                    v, wb = self.mlist_arg(a, env, ops, f"call to {fname}")
-                    cell["x"] = wb
-                    return v
-                thunks.append(th); outs.append(cell)
             elif kind == "modlist":
                 a2 = strip_paren(a)
                 if a2[0] == "ref": a2 = strip_paren(a2[2])
                 if not (a2[0] == "path" and len(a2[1]) == 1 and self.lookup(env, a2[1][0]).kind == "modlist"): self.fail(f"call to {fname}: `&[Modulus]` argument")
                 thunks.append(lambda a2=a2: Val(env[a2[1][0]].lean, "modlist", [env[a2[1][0]].lean]))
+            elif kind == "mlist":
+                cell = {}
+                def th(a=a, cell=cell):
+                    v, name, wb = self.mlist_arg(a, env, ops, f"call to {fname}"); cell["x"] = (name, wb); return v
+                thunks.append(th); outs.append(cell)
             elif kind == "out":
                 cell = {}
                 def th(a=a, p=p, cell=cell):      # evaluated in argument order (a `&mut list[i]` target does a bounds check there)
@@ -1570,11 +1688,13 @@ class FnLower2(FnLower):
                 # `x[a..b].copy_from_slice(&y[c..d])`: both sub-slices are bounds-checked (target first), lengths must agree (else panic)
                 tgt = strip_paren(e[1])
                 if not (tgt[0] == "index" and strip_paren(tgt[2])[0] == "range"): self.fail("copy_from_slice target is not a sub-slice", ln)
-                v, lo, hi = self.slice_bounds(tgt, env, ops)
-                if not v.mut: self.fail("copy_from_slice into an immutable slice", ln)
-                t0 = self.tmp(); ops.append(("bind", t0, f"sliceR {v.lean} {lo.atom} {hi.atom}")); self.monadic_used = True
+                tb = strip_paren(tgt[1])
+                if not (tb[0] == "path" and len(tb[1]) == 1 and self.lookup(env, tb[1][0]).kind == "list" and env[tb[1][0]].mut): self.fail("copy_from_slice into something that is not a mutable slice variable", ln)
+                v = env[tb[1][0]]
+                lo, hi = self.slice_bounds(v, strip_paren(tgt[2]), env, ops)
+                t0 = self.tmp(); ops.append(("bind", t0, f"slice {v.lean} {lo} {hi}")); self.monadic_used = True
                 src = self.list_arg(e[3][0], env, ops, "copy_from_slice")
-                ops.append(("bind", v.lean, f"copySlice {v.lean} {lo.atom} {hi.atom} {src.atom}"))
+                ops.append(("bind", v.lean, f"copySlice {v.lean} {lo} {hi} {src.atom}"))
                 return nxt()
             if e[0] in ("call", "mcall"):
                 self.ex(e, env, ops); return nxt()
@@ -1606,7 +1726,7 @@ class FnLower2(FnLower):
             # a local closure: inlined at every call.  Its captures must be immutable (never assigned anywhere in the function), so that
             # by-reference capture = the value at the definition = the value at the call
             if mut or pat in self.ever_assigned: self.fail(f"closure `{pat}` is mutable / re-assigned", ln)
-            if any(q[1] is None for q in i0[1]): self.fail(f"closure `{pat}` with untyped / pattern parameters bound to a local", ln)
+            if any(q[1] is None or not isinstance(q[0], str) for q in i0[1]): self.fail(f"closure `{pat}`: parameter without a type / with a pattern", ln)
             pnames = [q[0] for q in i0[1]]
             caps = {x for x in uses([i0[2][0], i0[2][1]]) if x in env and x not in pnames}
             a_in, d_in = assigned([i0[2][0], i0[2][1]])
@@ -1681,6 +1801,7 @@ class FnLower2(FnLower):
             env[pat] = Var("b", n, "bool", rust=pat)
         elif t in WORD: env[pat] = Var("w", n, (dty if dty in WORD else None) or t, rust=pat)
         elif t in ("i64", "u128", "u32"): env[pat] = Var("w", n, t, rust=pat)
+        elif t == "mod": env[pat] = Var("mod", n, rust=pat)
         elif isinstance(t, tuple) and t[0] == "struct": env[pat] = Var("struct", n, t[1], rust=pat)
         elif isinstance(t, tuple) and t[0] == "enum": env[pat] = Var("val", n, t, rust=pat)
         elif t == "list": env[pat] = Var("list", n, rust=pat); env[pat].vec = True; env[pat].mut = bool(mut)
@@ -1731,7 +1852,14 @@ class FnLower2(FnLower):
         if l0[0] == "index" and strip_paren(l0[1])[0] == "path" and len(strip_paren(l0[1])[1]) == 1 and self.lookup(env, strip_paren(l0[1])[1][0], ln).kind == "list" \
                 and env[strip_paren(l0[1])[1][0]].mut:
             v = env[strip_paren(l0[1])[1][0]]
-            if op is not None: self.fail("compound assignment to a slice element", ln)
+            if op is not None:
+                # `s[i] op= rhs` on primitives: the right operand first, then the place (index, bounds check), then the checked operation
+                r, i = self.seq([lambda: self.ex(rhs, env, ops), lambda: self.ex(l0[2], env, ops)], ops)
+                if r.ty not in WORD or i.ty not in WORD: self.fail(f"slice element compound assignment of {r.ty} at index of type {i.ty}", ln)
+                t = self.tmp(); ops.append(("bind", t, f"idx {v.lean} {i.atom}")); self.monadic_used = True
+                nv = self.ex(("bin", op, ("val", Val(t, "u64", [t])), ("val", r)), env, ops)
+                ops.append(("let", v.lean, f"{v.lean}.set {i.atom} {unparen(nv.atom)}"))
+                return
             r, i = self.seq([lambda: self.ex(rhs, env, ops), lambda: self.ex(l0[2], env, ops)], ops)     # value first, then the place
             if r.ty not in WORD or i.ty not in WORD: self.fail(f"slice element assignment of {r.ty} at index of type {i.ty}", ln)
             ops.append(("bind", v.lean, f"setIdx {v.lean} {i.atom} {r.atom}")); self.monadic_used = True
@@ -1801,6 +1929,7 @@ class FnLower2(FnLower):
     def for_loop(self, s, stmts, i, tail, env, ops, k, nested):
         """`for v in lo..hi` / `for v in (lo..hi).rev()`: exact trip count `hi - lo` (truncated: empty when hi <= lo), no fuel needed"""
         _, var, it, body, ln = s
+        if not k.toplevel and self.opts.get("nested_loops"): return self.for_loop_nested(s, stmts, i, tail, env, ops, k, nested)     # phase 4c
         if not k.toplevel and not self.loop_stack: self.fail("loop whose continuation is not the function's own (nested in a value-`if`/merge)", ln)
         it = strip_paren(it); rev = False
         if it[0] == "mcall" and it[2] == "rev" and not it[3]: rev = True; it = strip_paren(it[1])
@@ -1890,6 +2019,65 @@ class FnLower2(FnLower):
 
     LEANTY = {"w": "Nat", "b": "Bool", "out": "Nat", "mod": "Modulus", "mulop": "MulOperand", "list": "List Nat",
               "modlist": "List Modulus", "moplist": "List MulOperand"}
+
+    def for_loop_nested(self, s, stmts, i, tail, env, ops, k, nested):
+        """phase 4: a `for v in lo..hi` whose continuation is NOT the function's own (inside another loop's body / a branch): an auxiliary
+        definition that RETURNS the loop-carried state, `let (state) <- f_loopN captured.. (hi - lo) lo state..`; no `break`/`return` inside"""
+        _, var, it, body, ln = s
+        it = strip_paren(it)
+        if it[0] != "range" or it[3] or it[1] is None or it[2] is None: self.fail("nested `for` iterator is not `lo..hi`", ln)
+        if has_escape([body[0], body[1]]): self.fail("`return`/`break` inside a nested loop", ln)
+        if var in env: self.fail(f"loop variable `{var}` shadows an outer variable", ln)
+        lo, hi = self.seq([lambda: self.ex(it[1], env, ops), lambda: self.ex(it[2], env, ops)], ops)
+        for v in (lo, hi):
+            if v.ty not in ("usize", "int", "u64"): self.fail(f"range bound of type {v.ty}", ln)
+        count = hi.atom if lo.atom == "0" else f"({hi.atom} - {lo.atom})"
+        self.nloop += 1
+        after = self.live_rest(stmts, i + 1, tail, k)
+        brk = self.loop_brk[-1].live if self.loop_brk else set()
+        inside = self.live_stmt(s, set(), brk) - {var}           # read inside the loop (before being written there)
+        asg = self.assigned_outer([body[0], body[1]], env)
+        carried = [n for n in env if n in asg and (n in after or n in inside)]
+        captured = [n for n in env if n in inside and n not in carried]
+        if not carried: self.fail("nested loop without loop-carried state", ln)
+        for n in carried + captured:
+            if not self.all_init(env, [n]): self.fail(f"variable `{n}` is live across the loop but not initialised before it", ln)
+        for n in carried:
+            if env[n].kind not in ("w", "b", "arr", "out", "outarr", "list", "struct"): self.fail(f"loop-carried variable `{n}` of kind {env[n].kind}", ln)
+        cap_names = []; cap_binders = []
+        for n in captured:
+            v = env[n]
+            if v.kind in ("handle", "closure"): continue
+            nm = [v.lean] if v.kind == "cr" else v.names()
+            tyl = "Modulus" if v.kind == "cr" else ("Int" if v.ty == "i64" else self.LEANTY.get(v.kind, "Nat"))
+            for x in nm:
+                if v.kind == "struct": tyl = self.tr.structs[v.ty]["lean"]
+                if v.kind == "val" and isinstance(v.ty, tuple) and v.ty[0] == "enum": tyl = self.tr.enums[v.ty[1]]["lean"]
+                if x not in cap_names: cap_names.append(x); cap_binders.append(f"({x} : {tyl})")
+        for (bn, bt) in (self.abs_in([body[0], body[1]], env) if (self.abs or self.opts.get("extern")) else []):
+            if bn not in cap_names: cap_names.append(bn); cap_binders.append(f"({bn} : {bt})")
+        car_names = []; car_types = []
+        for n in carried:
+            v = env[n]
+            for x in v.names():
+                car_names.append(x); car_types.append("Int" if v.ty == "i64" else self.tr.structs[v.ty]["lean"] if v.kind == "struct" else self.LEANTY.get(v.kind, "Nat"))
+        lname = f"{self.name}_loop{self.nloop}"
+        iv = self.newvar(var)
+        def callstr(fuel, ivar): return " ".join([lname] + cap_names + [fuel, ivar] + car_names)
+        state = car_names[0] if len(car_names) == 1 else "(" + ", ".join(car_names) + ")"
+        kcont = K(lambda env2, _v, ops2: ("call", callstr("fuel", f"({iv} + 1)")), set(inside) | set(carried))
+        self.loop_brk.append(K(lambda *a: self.fail("break inside a nested loop", ln), set()))
+        envb = dict_copy(env); envb[var] = Var("w", iv, "usize", rust=var)
+        bcode = self.block_code(body, envb, kcont)
+        self.loop_brk.pop()
+        self.monadic_used = True
+        self.aux.append({"name": lname, "binders": cap_binders, "car_types": ["Nat"] + car_types, "car_names": [iv] + car_names, "body": bcode,
+                         "exhaust": Code([], ("ret", state)), "fuel": f"trip count {count}; returns the loop-carried state", "line": ln,
+                         "rty": "R (" + " × ".join(car_types) + ")"})
+        ops.append(("bind", state, callstr(count, lo.atom)))
+        for n in carried:
+            v = env[n]; v.init = [True] * len(v.init) if isinstance(v.init, list) else True
+        return self.stmts(stmts, i + 1, tail, env, ops, k, nested)
 
     def loop(self, s, stmts, i, tail, env, ops, k, nested):
         ln = s[-1]
@@ -2137,13 +2325,14 @@ class FnTranslate(FnLower2):
         for ent in self.opts.get("abstract", []):
             if ent[0] in self.abs: self.fail(f"abstraction `{ent[0]}` listed twice")
             self.abs[ent[0]] = None if len(ent) == 1 or ent[1] is None else (ent[1], ent[2])
+        self.extern_used = set()
         self.consts = {c: self.tr.const(rel, c) for c, rel in self.opts.get("consts", {}).items()}
         self.panic_err = self.opts.get("panic", "refused")
         self_binders = []
         for (pn, pt, mut) in fn["params"]:
             lean = f"a{np}"; np += 1; self.namemap.append(f"{lean}={pn}")
             pt = self.rty(pt)
-            if pt[0] == "selfty" and fn["selfty"] == "Modulus" and pt[1] == "ref":
+            if pt[0] == "selfty" and fn["selfty"] == "Modulus" and pt[1] == "ref":          # `impl Modulus { fn f(&self, ..) }`: the hand model's Modulus
                 params.append(("mod",)); env[pn] = Var("mod", lean, rust=pn); env[pn].isref = True; self.binders.append(f"({lean} : Modulus)")
                 continue
             if pt[0] == "selfty":
@@ -2164,7 +2353,8 @@ class FnTranslate(FnLower2):
                 params.append(("wi", "i64")); env[pn] = Var("w", lean, "i64", rust=pn); self.binders.append(f"({lean} : Int)")
             elif pt[0] == "name" and pt[1] == "bool":
                 params.append(("b",)); env[pn] = Var("b", lean, "bool", rust=pn); self.binders.append(f"({lean} : Bool)")
-            elif self.abs and (pt == ("name", "f64") or (pt[0] == "ref" and not pt[1] and pt[2][0] == "name" and pt[2][1] in self.opts.get("opaque", []))):
+            elif self.abs and (pt == ("name", "f64") or (pt[0] == "ref" and not pt[1] and pt[2][0] == "name" and pt[2][1] in self.opts.get("opaque", []))
+                               or (pt[0] == "ref" and not pt[1] and pt[2][0] == "arr" and pt[2][1][0] == "name" and pt[2][1][1] in self.opts.get("opaque", []))):
                 # an opaque object: usable only inside the accessor expressions the table abstracts
                 params.append(("handle",)); env[pn] = Var("handle", pn, rust=pn); np -= 1; self.namemap.pop()
             elif pt[0] == "ref" and not pt[1] and pt[2][0] == "name" and pt[2][1] in self.tr.structs and pt[2][1] != "MultiplyU64ModOperand":
@@ -2222,6 +2412,9 @@ class FnTranslate(FnLower2):
         # abstracted inputs (table order) come last
         for key, ent in self.abs.items():
             if ent is not None: self.binders.append(f"({ent[0]} : {ent[1]})")
+        seen_ext = []
+        for ent in self.opts.get("extern", []):          # abstract FUNCTION inputs (phase 4), after the accessor inputs
+            if ent["binder"] not in seen_ext: seen_ext.append(ent["binder"]); self.binders.append(f"({ent['binder']} : {self.EXTERN_TY})")
         rt = self.rty(fn["ret"])
         if rt == ("tuple", []): ret = "unit"
         elif rt[0] == "name" and rt[1] in ("u64", "usize", "u8", "bool", "u32"): ret = rt[1]
@@ -2332,6 +2525,8 @@ class FnTranslate(FnLower2):
         if "skeleton" in self.opts:
             self.abs = {}
             self.fn = Skeleton(self, self.fn, self.opts["skeleton"]).run()
+        if self.opts.get("iters"):
+            self.fn = dict(self.fn); self.fn["body"] = desugar_iters(self.fn["body"], self.fail, [0])
         env = self.signature()
         force = self.opts.get("monadic", False)
         # registered before lowering so that recursive calls resolve (monadic flag fixed by the table for recursive functions)
@@ -2375,6 +2570,8 @@ class FnTranslate(FnLower2):
         sig["monadic"] = monadic
         unused = [c for c, ent in self.abs.items() if c not in self.abs_used]
         if unused: self.fail(f"abstraction table entries never matched: {unused}")
+        unused = [ent["binder"] for ent in self.opts.get("extern", []) if ent["binder"] not in self.extern_used]
+        if unused: self.fail(f"extern table entries never matched: {unused}")
         if rec: return self.render_rec(code, monadic, rec, env)
         return self.render(code, monadic)
 
@@ -2491,7 +2688,7 @@ class FnTranslate(FnLower2):
             out.append(f"def {a['name']} {' '.join(a['binders'])} : Nat → {' → '.join(a['car_types'])} → {a.get('rty', rty)}".replace("  ", " "))
             pats = ", ".join(a["car_names"])
             fu = "fuel"
-            if mon:
+            if mon or "rty" in a:
                 out.append(f"  | 0, {pats} => {self.term_m(a['exhaust'], 4, mon)}")
                 out.append(f"  | {fu}+1, {pats} => do")
                 out += self.seq_m(a["body"], 4, mon)
@@ -2819,6 +3016,42 @@ TABLE_EVAL = [
                   "effects": {"self.mod_switch_to_next_inplace(encrypted)": "cur = cur - 1; trace.push(cur);"}}},
 ]
 
+# Gen/RnsFns.lean (phase 4c): src/util/polysmallmod.rs (component-wise helpers written as iterator chains) and the RNSTool routines of
+# src/util/rns.rs that divide by the last prime.  `self` is not modelled: every field / accessor the routine reads is an INPUT
+# (scalars, `Modulus`, and LISTS indexed with a bounds check: `self.base_q.base_at(#)` etc.); the (i)NTT calls are abstract FUNCTION
+# inputs `table index -> data -> R data` (`extern`).
+UP = "src/util/polysmallmod.rs"; UR = "src/util/rns.rs"; MD = "src/modulus.rs"
+RNS_Q = [("self.base_q.len()", "qSize", "Nat"), ("self.base_q.base_at(#)", "baseQ", "List Modulus"),
+         ("self.coeff_count", "coeffCount", "Nat"), ("self.inv_q_last_mod_q[#]", "invQLastModQ", "List MulOperand")]
+RNS_QB = [("self.base_q.len()", "qSize", "Nat"), ("self.base_q.base()",), ("self.base_q.base()[#]", "baseQ", "List Modulus"),
+          ("self.coeff_count", "coeffCount", "Nat"), ("self.inv_q_last_mod_q[#]", "invQLastModQ", "List MulOperand"),
+          ("self.t", "tMod", "Modulus"), ("self.inv_q_last_mod_t", "invQLastModT", "Nat")]
+TABLE_RNS = [
+    {"file": MD, "fn": "reduce", "impl": "Modulus", "lean": "modulus_reduce", "model": "barrett64"},
+    {"file": UP, "fn": "modulo", "iters": True, "model": "mapM barrett64"},
+    {"file": UP, "fn": "negate_inplace", "iters": True, "model": "mapM negateMod"},
+    {"file": UP, "fn": "add_scalar_inplace", "iters": True, "model": "mapM addMod"},
+    {"file": UP, "fn": "sub_scalar_inplace", "iters": True, "model": "mapM subMod"},
+    {"file": UP, "fn": "sub_inplace", "model": "zip subMod"},
+    {"file": UP, "fn": "multiply_operand_inplace", "iters": True, "model": "mapM mulOperandMod"},
+    {"file": UP, "fn": "multiply_scalar_inplace", "iters": True, "model": "mapM mulMod"},
+    {"file": UR, "fn": "divide_and_round_q_last_inplace", "impl": "RNSTool", "model": "RNSTool.divideAndRoundQLast", "nested_loops": True,
+     "abstract": RNS_Q},
+    {"file": UR, "fn": "mod_t_and_divide_q_last_inplace", "impl": "RNSTool", "model": "RNSTool.modTAndDivideQLast", "nested_loops": True,
+     "abstract": RNS_QB},
+    {"file": UR, "fn": "mod_t_and_divide_q_last_ntt_inplace", "impl": "RNSTool", "model": "RNSTool.modTAndDivideQLastNtt", "nested_loops": True,
+     "abstract": RNS_QB, "opaque": ["NTTTables"],
+     "extern": [{"call": "polymod::intt", "tables": "rns_ntt_tables", "binder": "inttF"}, {"call": "polymod::ntt", "tables": "rns_ntt_tables", "binder": "nttF"}]},
+]
+PRELUDE_RNS = """/-- bounds-checked reads of the list inputs that stand for `Vec<Modulus>` / `Vec<MultiplyU64ModOperand>` fields -/
+def idxMod (l : List Modulus) (i : Nat) : R Modulus := match l[i]? with | some x => .ok x | none => .error .oob
+def idxOp (l : List MulOperand) (i : Nat) : R MulOperand := match l[i]? with | some x => .ok x | none => .error .oob
+/-- `&s[a..b]`: panics unless `a <= b <= s.len()` -/
+def slice (l : List Nat) (a b : Nat) : R (List Nat) := if a ≤ b ∧ b ≤ l.length then .ok ((l.drop a).take (b - a)) else .error .oob
+/-- write a callee's result for `&mut s[a..]` back (the callee cannot change the length of the sub-slice) -/
+def splice (l : List Nat) (a : Nat) (s : List Nat) : List Nat := l.take a ++ s ++ l.drop (a + s.length)
+"""
+
 # Gen/ScalingFns.lean (phase 4a): src/util/scaling_variant.rs, the BFV scaling  dest += / -= round(q*m/t)  (C01 / C02 / C07).
 # The context / plaintext objects are opaque; what the functions read from them are inputs (getters returning slices are lists).
 SV = "src/util/scaling_variant.rs"
@@ -2844,15 +3077,15 @@ TABLE_SCALING = [
 PM = "src/util/polysmallmod.rs"
 POLY_PRELUDE = """/-- bounds-checked read of a read-only slice of structs (`&moduli[i]`) -/
 def idxT {α : Type} (l : List α) (i : Nat) : R α := match l[i]? with | some x => .ok x | none => .error .oob
-/-- `&x[lo..hi]`: panics unless `lo <= hi <= x.len()` -/
-def sliceR (l : List Nat) (lo hi : Nat) : R (List Nat) := if lo ≤ hi ∧ hi ≤ l.length then .ok ((l.drop lo).take (hi - lo)) else .error .oob
-/-- the buffer after a callee has worked on `&mut x[lo..hi]` and left `out` there -/
-def spliceR (l : List Nat) (lo hi : Nat) (out : List Nat) : List Nat := l.take lo ++ out ++ l.drop hi
+/-- `&s[a..b]`: panics unless `a <= b <= s.len()` -/
+def slice (l : List Nat) (a b : Nat) : R (List Nat) := if a ≤ b ∧ b ≤ l.length then .ok ((l.drop a).take (b - a)) else .error .oob
+/-- write a callee's result for `&mut s[a..]` back (the callee cannot change the length of the sub-slice) -/
+def splice (l : List Nat) (a : Nat) (s : List Nat) : List Nat := l.take a ++ s ++ l.drop (a + s.length)
 /-- `x[lo..hi].copy_from_slice(src)` (bounds already checked): panics unless the lengths agree -/
 def copySlice (l : List Nat) (lo hi : Nat) (src : List Nat) : R (List Nat) :=
-  if src.length = hi - lo then .ok (spliceR l lo hi src) else .error .refused
+  if src.length = hi - lo then .ok (splice l lo src) else .error .refused
 """
-def _pk(fn, **kw): return dict({"file": PM, "fn": fn, "lean": "poly_" + fn}, **kw)
+def _pk(fn, **kw): return dict({"file": PM, "fn": fn, "lean": "poly_" + fn, "iters": True}, **kw)
 POLY_KERNELS = ["modulo", "negate", "negate_inplace", "add", "add_inplace", "sub", "sub_inplace", "add_scalar", "add_scalar_inplace",
                 "sub_scalar", "sub_scalar_inplace", "multiply_scalar", "multiply_scalar_inplace", "multiply_operand", "multiply_operand_inplace",
                 "dyadic_product", "dyadic_product_inplace", "negacyclic_shift", "negacyclic_multiply_mononomial",
@@ -2879,6 +3112,7 @@ FILES += [
     ("EvalFns.lean", {"ns": "GenE", "imports": ["Heathcliff.Gen.WordFns"], "table": TABLE_EVAL, "opens": ["HC.GenW"]}),
     ("PolyFns.lean", {"ns": "GenP", "imports": ["Heathcliff.Gen.WordFns"], "table": TABLE_POLY, "opens": ["HC.GenW"], "prelude": POLY_PRELUDE}),
     ("ScalingFns.lean", {"ns": "GenS", "imports": ["Heathcliff.Gen.WordFns"], "table": TABLE_SCALING, "opens": ["HC.GenW"], "prelude": SCALING_PRELUDE}),
+    ("RnsFns.lean", {"ns": "GenR", "imports": ["Heathcliff.Gen.WordFns"], "table": TABLE_RNS, "opens": ["HC.GenW"], "prelude": PRELUDE_RNS}),
 ]
 
 if __name__ == "__main__":
